@@ -40,7 +40,7 @@ def tab_name(i, w):
     return "tab_%d_%s_%s" % (i, w["kind"], "_".join(w["flags"]))
 
 
-HDR = "From Coq Require Import String List Bool.\nFrom LNML Require Import Model.H5.\nFrom Run Require Import Gen_C05.\n"
+HDR = "From Coq Require Import String List Bool ZArith.\nFrom LNML Require Import Model.H5.\nFrom Run Require Import Gen_C05.\n"
 
 
 def obligations(ck, t):
@@ -59,6 +59,8 @@ def obligations(ck, t):
         allok = allok and ok
     for fn, lem, stmt in (("layout", "all_layouts", "all_layouts_ok gen = true"),
                           ("stores", "all_stores", "all_stores_ok gen = true"),
+                          ("select", "select", "select_ok gen = true"),
+                          ("zero", "zero_cells_ok", "zero_ok gen = true"),
                           ("covered", "kinds_covered_ok", "kinds_covered gen = true"),
                           ("groups", "groups", "groups_ok gen = true"),
                           ("none", "none_attribute", "none_ok gen = true"),
@@ -73,7 +75,7 @@ def obligations(ck, t):
 
 def diagnostics(ck):
     txt = HDR + ("Eval vm_compute in (failing_tables gen).\nEval vm_compute in (failing_builder gen).\n"
-                 "Eval vm_compute in (not_refused gen).\nEval vm_compute in (groups_ok gen, none_ok gen, units_ok gen, kinds_covered gen).\n")
+                 "Eval vm_compute in (not_refused gen).\nEval vm_compute in (failing_select gen).\nEval vm_compute in (failing_zero gen).\nEval vm_compute in (groups_ok gen, none_ok gen, units_ok gen, kinds_covered gen).\n")
     ok, res, out = ck.coq_eval("Diag_C05.v", txt)
     return res if ok else ["diagnostics failed: " + out[-300:]]
 
@@ -371,6 +373,115 @@ def stored_witnesses():
     return out
 
 
+# ------------------------------------------------------------------------------------------------- one field off its default
+OFFV = {"pre_seg": 3, "post_seg": 2, "pre_fract": 0.25, "post_fract": 0.75, "seg": 4, "fract": 0.125, "weight": 2.5, "delay": "1.5ms"}
+
+
+def single_field_cases():
+    """deterministic, every run: for every construct kind, row variant and field that has a default, a network in which that
+    field of ONE row (the second of two; and, for constructs with several element lists, a row of the other list) is the only
+    value off its default in the whole construct -> (label, spec)"""
+    out = []
+    segs = ["pre_seg", "post_seg", "pre_fract", "post_fract"]
+    ATTR = {"projection": {"pre_seg": "pre_segment_id", "post_seg": "post_segment_id", "pre_fract": "pre_fraction_along", "post_fract": "post_fraction_along"},
+            "conn": {"pre_seg": "pre_segment", "post_seg": "post_segment", "pre_fract": "pre_fraction_along", "post_fract": "post_fraction_along"},
+            "inputlist": {"seg": "segment_id", "fract": "fraction_along"}}
+
+    def doc(label):
+        s = base_spec()
+        out.append((label, s))
+        return s["networks"][0]
+
+    def chem(v, i, off=None):
+        c = {"v": v, "id": i, "pre": "../pA[%d]" % (i % 5), "post": "../pB/%d/iaf" % (i % 3)}
+        if v == "W":
+            c.update(weight=1.0, delay="0ms")
+        if off in ATTR["projection"]:
+            c[ATTR["projection"][off]] = OFFV[off]
+        elif off:
+            c[off] = OFFV[off]
+        return c
+    for v, fields in (("C", segs), ("W", segs + ["weight", "delay"])):
+        for f in fields:
+            for shape in ("second-row", "only-row"):
+                n = doc("projection:%s:%s:%s" % (v, f, shape))
+                n["projections"].append({"id": "pr", "pre": "pA", "post": "pB", "synapse": "syn1",
+                                         "conns": ([chem(v, 0)] if shape == "second-row" else []) + [chem(v, 1, f)]})
+    for f in segs:
+        for a, b in (("C", "W"), ("W", "C")):
+            n = doc("projection:%s-default+%s:%s" % (a, b, f))
+            n["projections"].append({"id": "pr", "pre": "pA", "post": "pB", "synapse": "syn1", "conns": [chem(a, 0), chem(b, 1, f)]})
+
+    def conn(kind, v, i, inst, off=None):
+        plain = v in ("E", "K")
+        pop = "pB" if inst else "pA"
+        ref = (lambda j: str(j)) if plain else ((lambda j: "../pB/%d/iaf" % j) if inst else (lambda j: "../pA[%d]" % j))
+        c = {"v": v, "id": i, "pre": ref(i % 3), "post": ref((i + 1) % 3)}
+        if kind == "electrical":
+            c["synapse"] = "gj1"
+        else:
+            c["pre_component"], c["post_component"] = "silent1", "gs1"
+        if v in ("EIW", "KIW"):
+            c["weight"] = 1.0
+        if off in ATTR["conn"]:
+            c[ATTR["conn"][off]] = OFFV[off]
+        elif off:
+            c[off] = OFFV[off]
+        return c, pop
+    for kind, key, vs in (("electrical", "electrical", ("E", "EI", "EIW")), ("continuous", "continuous", ("K", "KI", "KIW"))):
+        for v in vs:
+            for f in segs + (["weight"] if v == vs[2] else []):
+                inst = v != vs[0]
+                n = doc("%s:%s:%s" % (kind, v, f))
+                c0, pop = conn(kind, v, 0, inst)
+                c1, _ = conn(kind, v, 1, inst, f)
+                n[key].append({"id": "c", "pre": pop, "post": pop, "conns": [c0, c1]})
+
+    def inp(v, i, off=None):
+        c = {"v": v, "id": i, "target": "../pA[%d]" % i}
+        if v == "IW":
+            c["weight"] = 1.0
+        if off in ATTR["inputlist"]:
+            c[ATTR["inputlist"][off]] = OFFV[off]
+        elif off:
+            c[off] = OFFV[off]
+        return c
+    for v, fields in (("I", ["seg", "fract"]), ("IW", ["seg", "fract", "weight"])):
+        for f in fields:
+            n = doc("inputlist:%s:%s" % (v, f))
+            n["input_lists"].append({"id": "il", "component": "pg", "population": "pA", "inputs": [inp(v, 0), inp(v, 1, f)]})
+    # a field at 0 (falsy in python) whose default is not 0, and at the other end of its range
+    global OFFV
+    saved = dict(OFFV)
+    try:
+        for tag, fr, w in (("zero", 0.0, 0.0), ("one", 1.0, -1.0)):
+            OFFV = dict(saved, pre_fract=fr, post_fract=fr, fract=fr, weight=w)
+            for v, fields in (("C", ["pre_fract", "post_fract"]), ("W", ["pre_fract", "post_fract", "weight"])):
+                for f in fields:
+                    n = doc("projection:%s:%s=%s" % (v, f, tag))
+                    n["projections"].append({"id": "pr", "pre": "pA", "post": "pB", "synapse": "syn1", "conns": [chem(v, 0, f)]})
+            for kind, key, vs in (("electrical", "electrical", ("E", "EI", "EIW")), ("continuous", "continuous", ("K", "KI", "KIW"))):
+                for v in vs:
+                    for f in ["pre_fract", "post_fract"] + (["weight"] if v == vs[2] else []):
+                        n = doc("%s:%s:%s=%s" % (kind, v, f, tag))
+                        c1, pop = conn(kind, v, 1, v != vs[0], f)
+                        n[key].append({"id": "c", "pre": pop, "post": pop, "conns": [c1]})
+            for v, fields in (("I", ["fract"]), ("IW", ["fract", "weight"])):
+                for f in fields:
+                    n = doc("inputlist:%s:%s=%s" % (v, f, tag))
+                    n["input_lists"].append({"id": "il", "component": "pg", "population": "pA", "inputs": [inp(v, 1, f)]})
+    finally:
+        OFFV = saved
+    for k, f in enumerate(("x", "y", "z")):
+        n = doc("population:Instance:%s" % f)
+        loc = [0, 0, 0]
+        loc[k] = 1.5
+        n["populations"][1]["instances"] = [[0, 0, 0, 0], [1] + loc]
+    n = doc("population:Instance:all-zero")
+    n["populations"][1]["instances"] = [[0, 0, 0, 0]]
+    return out
+
+
 ROWF = {"proj": ["pre_cell", "post_cell", "pre_seg", "post_seg", "pre_fract", "post_fract", "weight", "delay"],
         "elec": ["id", "pre_cell", "post_cell", "pre_seg", "post_seg", "pre_fract", "post_fract", "weight"],
         "cont": ["id", "pre_cell", "post_cell", "pre_seg", "post_seg", "pre_fract", "post_fract", "weight"],
@@ -510,10 +621,8 @@ From LNML Require Import Model.H5.
 From Run Require Import Gen_C05.
 Import ListNotations.
 Open Scope string_scope.
-(* numbers are scaled by 1024 (all inputs are multiples of 1/1024 below 2^13, i.e. float32 numbers): r32 = int() = identity *)
-Definition zc (c : cst) : Z := match c with CZero => 0 | COne => 1024 | CHalf => 512 | CMinusOne => -1024 end%Z.
-Fixpoint frow (l : list (string * Z)) (f : string) : Z :=
-  match l with [] => 0%Z | (k, v) :: t => if String.eqb k f then v else frow t f end.
+(* numbers are scaled by 1024 (all inputs are multiples of 1/1024 below 2^13, i.e. float32 numbers): r32 = int() = identity;
+   zc and frow are those of Model/H5.v *)
 Definition dummy := {| wt_kind := EmptyString; wt_flags := nil; wt_names := nil; wt_variants := nil; wt_gattrs := nil |}.
 Definition run_model (g : h5gen) (i : nat) (inst : bool) (rows : list (string * (string -> Z))) : option (list (list Z)) :=
   let wt := nth i (g_writer g) dummy in
@@ -612,12 +721,12 @@ def run(ck):
             if not inst_ok:
                 ck.extra["diagnostics"] = diagnostics(ck)
             # Props need: all_layouts, groups, builder, refuse
-            need = ["Inst_C05_layout.v:all_layouts", "Inst_C05_stores.v:all_stores", "Inst_C05_groups.v:groups", "Inst_C05_builder.v:builder", "Inst_C05_refuse.v:refuse"]
+            need = ["Inst_C05_layout.v:all_layouts", "Inst_C05_stores.v:all_stores", "Inst_C05_select.v:select", "Inst_C05_groups.v:groups", "Inst_C05_builder.v:builder", "Inst_C05_refuse.v:refuse"]
             okn = all(any(o["name"] == nme and o["ok"] for o in ck.obligations) for nme in need)
             if okn:
                 ck.compile_props()
             else:
-                for nm in ("C05_row", "C05_table", "C05_table_construct", "C05_roundtrip_partial", "C05_network_roundtrip_partial", "C05_group_attributes", "C05_builder", "C05_refuse"):
+                for nm in ("C05_row", "C05_table", "C05_table_construct", "C05_roundtrip_partial", "C05_select", "C05_network_roundtrip_partial", "C05_group_attributes", "C05_builder", "C05_refuse"):
                     ck.oblige("Props_C05.v:" + nm, False, "an instance obligation it rests on failed", kind="theorem")
             ck.tally("writer_tables", len(t["json"]["writer"]))
             ck.tally("builder_contexts", len(t["json"]["builder"]))
@@ -636,6 +745,17 @@ def run(ck):
             report(ck, k2, what + " [stored witness " + key + "]", spec, r, expect=expect)
         if r.get("doc_untouched") is False:
             ck.witness("C05:writer-changes-the-document", "the writer left the document changed", input={"spec": spec})
+
+    # ---- every run: one field off its default at a time, for every kind / variant / field
+    sf = single_field_cases()
+    res = ck.impl("c05_impl.py", {"cases": [{"spec": s, "modes": ["plain"], "expect": "same"} for _, s in sf]}, timeout=900)["results"]
+    for (label, spec), r in zip(sf, res):
+        r = r["plain"]
+        ck.count(1, nontrivial_key="single:" + label)
+        ck.tally("single_field_off")
+        if not r["verdict"]["ok"]:
+            k2 = key_of(r["verdict"].get("diff", []), r["verdict"], r["stage"], r["error"])
+            report(ck, k2, "only one field off its default (%s): %s" % (label, k2), spec, r)
 
     # ---- model vs code on exactly representable inputs
     if t is not None and inst_ok:
